@@ -1,4 +1,5 @@
 import IstioModel.C19.Model
+import IstioModel.C19.Lemmas
 
 /-!
 # C19 - theorems that do not depend on the generated table
@@ -20,10 +21,6 @@ The tie to the real function is in `GenTie.lean` (the table generated from /repo
 namespace IstioModel.C19
 
 /-! ## The enumeration is complete -/
-
-theorem boolAll_complete (b : Bool) : b ∈ boolAll := by cases b <;> decide
-theorem Val.all_complete (v : Val) : v ∈ Val.all := by cases v <;> decide
-theorem Pol.all_complete (p : Pol) : p ∈ Pol.all := by cases p <;> decide
 
 /-- Every row of the abstract domain occurs in `Row.all`. -/
 theorem Row.mem_all (r : Row) : r ∈ Row.all := by
@@ -85,30 +82,12 @@ theorem spec_label_over_annotation (r : Row) (h : r.label ≠ .absent) (a : Val)
     specDecision { r with ann := a } = specDecision r := by
   cases hl : r.label <;> simp_all [specDecision, podVerdict]
 
-theorem podVerdict_label_true (r : Row) (h : r.label = .tru) : podVerdict r = some true := by
-  simp [podVerdict, h]
-
-theorem podVerdict_label_false (r : Row) (h : r.label = .fls) : podVerdict r = some false := by
-  simp [podVerdict, h]
-
 /-- Edge decision: a present but unrecognised label gives no verdict, whatever the annotation. -/
 theorem podVerdict_unrecognised_label (r : Row) (h : r.label = .empty ∨ r.label = .other) :
     podVerdict r = none := by
   cases h with
   | inl h => simp [podVerdict, h]
   | inr h => simp [podVerdict, h]
-
-theorem podVerdict_annotation_true (r : Row) (h : r.label = .absent) (ha : r.ann = .tru) :
-    podVerdict r = some true := by
-  simp [podVerdict, h, ha]
-
-theorem podVerdict_annotation_false (r : Row) (h : r.label = .absent) (ha : r.ann = .fls) :
-    podVerdict r = some false := by
-  simp [podVerdict, h, ha]
-
-theorem podVerdict_annotation_none (r : Row) (h : r.label = .absent)
-    (ha : r.ann = .absent ∨ r.ann = .empty ∨ r.ann = .other) : podVerdict r = none := by
-  rcases ha with ha | ha | ha <;> simp [podVerdict, h, ha]
 
 /-- A pod with a verdict (label or annotation "true"/"false") is decided without the selectors. -/
 theorem spec_verdict_over_selectors (r : Row) (v : Bool) (h : podVerdict r = some v) (nv al : Bool) :
@@ -142,8 +121,6 @@ theorem anyHit_iff (sels : List Sel) (labels : KV) :
 /-- The empty selector (which matches every label set in Kubernetes) is skipped. -/
 theorem selStatus_empty_selector (labels : KV) : selStatus {} labels = .empty := by
   simp [selStatus, compileSel, allSome]
-
-theorem anyHit_nil (labels : KV) : anyHit [] labels = false := rfl
 
 /-- A selector that fails to parse, is empty or does not match has no influence. -/
 theorem anyHit_skip (s : Sel) (rest : List Sel) (labels : KV) (h : selStatus s labels ≠ .hit) :
